@@ -195,6 +195,22 @@ fn observe<E: Pairing>(who: &str, a: &N, a2: &N, b: &N) -> Result<Vec<(String, V
         }
         o.push(("msm(G2, identity bases)".into(), ser(&m2.into_affine(), false)));
     }
+    // zeroize leaves the same state in both engines (fields, points, pairing outputs)
+    {
+        use zeroize::Zeroize;
+        let mut t = p.into_group();
+        t.zeroize();
+        o.push(("zeroize(aG1 projective)".into(), ser(&t.into_affine(), false)));
+        let mut t = q.into_group();
+        t.zeroize();
+        o.push(("zeroize(bG2 projective)".into(), ser(&t.into_affine(), false)));
+        let mut t = p.x().copied().unwrap_or_default();
+        t.zeroize();
+        o.push(("zeroize(x of aG1)".into(), ser(&t, false)));
+        let mut t = sa;
+        t.zeroize();
+        o.push(("zeroize(scalar)".into(), ser(&t, false)));
+    }
     let e_pq = E::pairing(p, q);
     let e_gg = E::pairing(g1, g2);
     o.push(("e(aG1,bG2)/compressed".into(), ser(&e_pq, true)));
